@@ -13,7 +13,6 @@ import (
 
 func scenarios(r *vr.Run) []*clustermc.Scenario {
 	all := clustermc.Faults{Drop: true, Dup: true, Reorder: true, Campaign: true, Partition: true}
-	cp := clustermc.Faults{Campaign: true, Partition: true}
 	w := func(key, tag string, stores ...int) clustermc.OpSpec {
 		return clustermc.OpSpec{Kind: "w", Region: 1, Key: key, Tag: tag, Stores: stores}
 	}
@@ -34,8 +33,8 @@ func scenarios(r *vr.Run) []*clustermc.Scenario {
 			Ops: []clustermc.OpSpec{w("a", "V1", 2), rd("a", 1)}},
 		{Name: "t-stable-4ops", Regions: 1, Leaders: []int{1}, Budget: 0, MaxDepth: 120,
 			Ops: []clustermc.OpSpec{w("a", "V1", 1), rd("a", 1, 2), w("a", "V2", 1), rd("a", 1)}},
-		{Name: "t-deposed-3ops-d15", Regions: 1, Leaders: []int{1}, Budget: 2, Faults: cp, MaxDepth: 15, DepthBound: true,
-			Ops: []clustermc.OpSpec{w("a", "V0", 1), w("a", "V1", 2, 3), rd("a", 1, 2)}},
+		{Name: "t-deposed-3ops-d16", Regions: 1, Leaders: []int{1}, Budget: 2, Faults: dep, MaxDepth: 16, DepthBound: true,
+			Ops: []clustermc.OpSpec{w("a", "V0", 1), w("a", "V1", 2), rd("a", 1, 2)}},
 		{Name: "t-read-anyfault", Regions: 1, Leaders: []int{1}, Budget: 1, Faults: all, MaxDepth: 120,
 			Ops: []clustermc.OpSpec{w("a", "V1", 1), rd("a", 1, 2)}},
 		{Name: "t-read-beat", Regions: 1, Leaders: []int{1}, Budget: 0, MaxBeats: 1, MaxDepth: 120,
